@@ -36,9 +36,11 @@ fn parse_seed() -> u64 {
 }
 
 fn write_evidence(rep: &Report) {
-    let mut samples: Vec<Value> = Vec::new();
-    samples.extend(rep.stats.samples_nt.iter().cloned());
-    samples.extend(rep.stats.samples_tr.iter().cloned());
+    let mut samples: Vec<Value> = rep.samples.clone();
+    if samples.is_empty() {
+        samples.extend(rep.stats.samples_nt.iter().cloned());
+        samples.extend(rep.stats.samples_tr.iter().cloned());
+    }
     if samples.is_empty() {
         samples.push(json!("(no sample recorded)"));
     }
@@ -67,7 +69,10 @@ fn write_evidence(rep: &Report) {
         "wall_s": rep.start.elapsed().as_secs_f64(),
         "violations": if rep.violation.is_some() { 1 } else { 0 },
     });
-    let dir = verif_root().join("evidence");
+    let dir = match std::env::var("A5VERIF_EVIDENCE_DIR") {
+        Ok(d) => PathBuf::from(d),
+        Err(_) => verif_root().join("evidence"),
+    };
     let _ = std::fs::create_dir_all(&dir);
     let path = dir.join(format!("{}.json", rep.property));
     if let Err(e) = std::fs::write(&path, serde_json::to_string_pretty(&ev).unwrap()) {
@@ -82,6 +87,7 @@ fn write_replay(rep: &Report) -> PathBuf {
         "property": rep.property,
         "section": v.section,
         "case": v.case,
+        "preceding_cases": v.preceding,
         "message": v.message,
         "tier": rep.tier.name(),
         "seed": rep.seed,
@@ -100,7 +106,7 @@ fn write_replay(rep: &Report) -> PathBuf {
 
 fn emit_violation(property: &'static str, section: &str, case: Value, message: String) -> i32 {
     let mut rep = Report::new(property, Tier::Thorough, parse_seed(), "");
-    rep.violation = Some(engine::Violation { section: section.to_string(), case, message: message.clone() });
+    rep.violation = Some(engine::Violation { section: section.to_string(), case, message: message.clone(), preceding: Vec::new() });
     let path = write_replay(&rep);
     println!("violation found by the libFuzzer campaign in section {}: {}", section, message);
     println!("VIOLATION property={} replay={}", property, path.display());
@@ -195,6 +201,64 @@ fn main() {
             }
             let seed = parse_seed();
             let known = props::known::load(&verif_root().join("known_findings.txt"));
+            // replay tier: saved shrunk failures of repaired defects and of the seeded breaking
+            // changes (regressions/<ID>/*.json) are re-checked first, bypassing proptest
+            let mut regressions_ok: Vec<String> = Vec::new();
+            let reg_dir = verif_root().join("regressions").join(&id);
+            let skip_reg = std::env::var("A5VERIF_SKIP_REGRESSIONS").is_ok();
+            if let (Ok(rd), false) = (std::fs::read_dir(&reg_dir), skip_reg) {
+                let mut files: Vec<_> = rd.filter_map(|e| e.ok()).map(|e| e.path()).filter(|p| p.extension().map(|x| x == "json").unwrap_or(false)).collect();
+                files.sort();
+                for f in files {
+                    let v: Value = match std::fs::read_to_string(&f).ok().and_then(|t| serde_json::from_str(&t).ok()) {
+                        Some(v) => v,
+                        None => {
+                            eprintln!("harness: unreadable regression file {}", f.display());
+                            std::process::exit(2);
+                        }
+                    };
+                    let section = v["section"].as_str().unwrap_or("").to_string();
+                    // each regression case runs in its own fresh thread (cold thread-local state), with
+                    // its recorded preceding cases first
+                    let res = std::thread::scope(|sc| {
+                        let (idr, sec, vr) = (&id, &section, &v);
+                        sc.spawn(move || {
+                            if let Some(pre) = vr["preceding_cases"].as_array() {
+                                for c in pre {
+                                    let _ = props::replay(idr, sec, c);
+                                }
+                            }
+                            props::replay(idr, sec, &vr["case"])
+                        })
+                        .join()
+                        .unwrap_or(None)
+                    });
+                    match res {
+                        Some(Ok(())) => regressions_ok.push(f.file_name().unwrap().to_string_lossy().to_string()),
+                        Some(Err(m)) => {
+                            let pid: &'static str = Box::leak(id.clone().into_boxed_str());
+                            let mut rep = Report::new(pid, tier, seed, "replay of saved regression cases");
+                            rep.stats.evals = regressions_ok.len() as u64 + 1;
+                            for (i, n) in regressions_ok.iter().enumerate() {
+                                rep.stats.nontrivial(&(i, n.clone()));
+                            }
+                            rep.stats.nontrivial(&f.display().to_string());
+                            rep.stats.nontrivial(&"regression");
+                            rep.stats.samples_nt.push(v["case"].clone());
+                            rep.violation = Some(engine::Violation { section, case: v["case"].clone(), message: format!("saved regression case {} fails again: {}", f.display(), m), preceding: v["preceding_cases"].as_array().cloned().unwrap_or_default() });
+                            write_evidence(&rep);
+                            let path = write_replay(&rep);
+                            println!("violation: {}", rep.violation.as_ref().unwrap().message);
+                            println!("VIOLATION property={} replay={}", rep.property, path.display());
+                            std::process::exit(1);
+                        }
+                        None => {
+                            eprintln!("harness: cannot replay regression file {}", f.display());
+                            std::process::exit(2);
+                        }
+                    }
+                }
+            }
             let run = std::panic::catch_unwind(std::panic::AssertUnwindSafe(|| props::run(&id, tier, seed, &known)));
             let run = match run {
                 Ok(r) => r,
@@ -211,6 +275,9 @@ fn main() {
                     std::process::exit(2);
                 }
             };
+            let mut rep = rep;
+            rep.extra.insert("regression_cases_replayed".into(), json!(regressions_ok.len()));
+            rep.stats.evals += regressions_ok.len() as u64;
             write_evidence(&rep);
             for k in known.iter().filter(|k| k.status == "known" && k.property == rep.property) {
                 println!("KNOWN-FINDING: property={} {}", k.property, k.what);
@@ -253,6 +320,12 @@ fn main() {
             };
             let prop = v["property"].as_str().unwrap_or("").to_string();
             let section = v["section"].as_str().unwrap_or("").to_string();
+            if let Some(pre) = v["preceding_cases"].as_array() {
+                // history-dependent failure: the recorded preceding cases run first, on this thread
+                for c in pre {
+                    let _ = props::replay(&prop, &section, c);
+                }
+            }
             match props::replay(&prop, &section, &v["case"]) {
                 None => {
                     eprintln!("harness: cannot replay property {} section {}", prop, section);
